@@ -690,6 +690,7 @@ fn run_check_inner(cfg: &CheckCfg) -> CheckResult {
         ("real process SIGKILLed at sync point", probes.get("kill-twin-compared").copied().unwrap_or(0)),
         ("stored byte flipped", probes.get("byte-corrupted").copied().unwrap_or(0)),
         ("file of another map swapped in", probes.get("file-swapped").copied().unwrap_or(0)),
+        ("stored file cut short (shorter than its header)", probes.get("file-truncated").copied().unwrap_or(0)),
         ("run repeated with poisoned allocator / other process", probes.get("twice-compared").copied().unwrap_or(0)),
         ("close + reopen in a fresh process (real kernel)", probes.get("reopen-in-fresh-process").copied().unwrap_or(0)),
     ] {
